@@ -73,8 +73,9 @@ structure Sig where
 /-- implementors of `unsafe trait BumpAllocatorCoreScope<'a>` (the promise "my allocations live for `'a`") -/
 inductive ImplTy | scope | refBump | refMutBump | refB | refMutB | wrapper
   deriving DecidableEq, Repr, Inhabited
-/-- what `'a` is for the implementor: its own lifetime parameter, the lifetime of the reference, or `B`'s -/
-inductive ImplLt | own | refLt | forward
+/-- what `'a` is for the implementor: its own lifetime parameter, the lifetime of the reference, `B`'s, or
+    (`anon`) a lifetime that the implementing type does not mention at all -/
+inductive ImplLt | own | refLt | forward | anon
   deriving DecidableEq, Repr, Inhabited
 structure ScopeImpl where
   ty   : ImplTy
